@@ -685,6 +685,8 @@ impl ConnectionPool {
     /// Resume the pool, allowing queries and resuming any pending queries.
     pub fn resume(&self) {
         self.paused.store(false, Ordering::Relaxed);
+        #[cfg(pgcat_verif)]
+        crate::verif_hooks::point("resume:after_store");
         self.paused_waiter.notify_waiters();
     }
 
@@ -696,7 +698,11 @@ impl ConnectionPool {
     /// Check if the pool is paused and wait until it's resumed.
     pub async fn wait_paused(&self) -> bool {
         let waiter = self.paused_waiter.notified();
+        #[cfg(pgcat_verif)]
+        crate::verif_hooks::point("wait_paused:after_notified");
         let paused = self.paused.load(Ordering::Relaxed);
+        #[cfg(pgcat_verif)]
+        crate::verif_hooks::point("wait_paused:after_load");
 
         if paused {
             waiter.await;
